@@ -476,7 +476,7 @@ def install(E):
             return [(P, NONE)]
         if isinstance(lst, SList):
             n = E.l_len(P, lst)
-            E.l_set_elems(P, lst, z3.Store(E.l_elems(P, lst), n, E.unwrap(x, lst.ekind)))
+            E.l_store(P, lst, n, E.unwrap(x, lst.ekind))
             E.l_set_len(P, lst, n + 1)
             # ghost: objects of tracked classes remember the index (and the list) of their latest append.
             # Pure instrumentation: no program value depends on it; it replaces an existential in membership invariants.
@@ -574,6 +574,21 @@ def install(E):
         E.l_set_elems(P, lst, new)
         E.assume_used("A-LIB:list.sort(key) is a stable permutation ordered by the key")
         return [(P, NONE)]
+
+    @reg("sorted", True)
+    def _sorted(E, P, ctx, it, key=None, reverse=None):
+        """A-LIB sorted(list, key=f): a NEW list, stable permutation of the argument ordered by the key"""
+        if not isinstance(it, SList) or key is None:
+            items = E.iter_items(P, it)
+            raise Unsupported("sorted() of %r" % (it,))
+        new = E.new_slist(P, it.ekind, "sorted")
+        E.l_set_len(P, new, E.l_len(P, it))
+        E.l_set_elems(P, new, E.l_elems(P, it))
+        kw = {"key": key}
+        if reverse is not None:
+            kw["reverse"] = reverse
+        M["method.sort"](E, P, ctx, new, **kw)
+        return [(P, new)]
 
     @reg("method.get")
     def _get(E, P, ctx, d, k, default=NONE):
@@ -739,6 +754,19 @@ def install(E):
     @reg("alloc", True)
     def _alloc(E, P, ctx, x):
         return [(P, Bool(z3.Select(E.alloc_arr(P), x.t)))]
+
+    @reg("old_at", True)
+    def _old_at(E, P, ctx, lst, k):
+        """element k of the list as it was in the pre-state (the index term is evaluated in the current state)"""
+        if P.old is None:
+            raise SpecError("old_at() outside a postcondition")
+        return [(P, E.l_get(P.old, lst, E.num(k).t))]
+
+    @reg("old_len", True)
+    def _old_len(E, P, ctx, lst):
+        if P.old is None:
+            raise SpecError("old_len() outside a postcondition")
+        return [(P, Num(E.l_len(P.old, lst), True))]
 
     @reg("unchanged", True)
     def _unchanged(E, P, ctx, *keys):
